@@ -108,11 +108,13 @@ theorem skip_seen (ver : Nat) (seen active : Nat) (X : Bytes) :
     rw [readN_append' 8 _ X (leN_length 8 seen)]
     rfl
 
-theorem streamConsumers_enc (ver : Nat) (key group : Bytes) (g : SGroupE) (cs : List SConsumerE) (rest : Bytes)
+theorem streamConsumers_enc (cc : Bool) (ver : Nat) (key group : Bytes) (g : SGroupE) (cs : List SConsumerE) (rest : Bytes)
     (h : ∀ c ∈ cs, c.name.wf ∧ c.pel.length < 2 ^ 64 ∧ ∀ p ∈ c.pel, p.1 < 2 ^ 64 ∧ p.2 < 2 ^ 64) :
-    streamConsumers (decide (ver ≥ 3)) key group (g.pel.map nackRec) cs.length
+    streamConsumers cc (decide (ver ≥ 3)) key group (g.pel.map nackRec) cs.length
         (cs.flatMap (SConsumerE.enc ver) ++ rest) =
-      some (cs.flatMap (fun c => c.pel.map (claimOf key group c.name.val g)), rest) := by
+      some (cs.flatMap (fun c =>
+        (if cc = true ∧ c.pel.length = 0 then [cmdB b!"XGROUP" [b!"CREATECONSUMER", key, group, c.name.val]] else []) ++
+          c.pel.map (claimOf key group c.name.val g)), rest) := by
   induction cs with
   | nil => simp [streamConsumers]
   | cons c cs ih =>
@@ -142,7 +144,10 @@ theorem claims_cmds (x : XCfg) (s : StreamE) (k : Bytes) (g : SGroupE) :
     SGroupE.cmds x s k g =
       cmdB b!"XGROUP" ([b!"CREATE", k, g.name.val, fmtId g.lastMs g.lastSeq] ++
         (if x.tgtMajor ≥ 7 then [b!"ENTRIESREAD", intToDec (g.read s)] else [])) ::
-      g.consumers.flatMap (fun c => c.pel.map (claimOf k g.name.val c.name.val g)) := rfl
+      g.consumers.flatMap (fun c =>
+        (if x.hasCreateConsumer = true ∧ c.pel.length = 0 then
+           [cmdB b!"XGROUP" [b!"CREATECONSUMER", k, g.name.val, c.name.val]] else []) ++
+          c.pel.map (claimOf k g.name.val c.name.val g)) := rfl
 
 theorem streamGroups_enc (x : XCfg) (s : StreamE) (k : Bytes) (rest : Bytes) :
     ∀ (gs : List SGroupE), (∀ g ∈ gs, GroupOk g) →
@@ -161,14 +166,14 @@ theorem streamGroups_enc (x : XCfg) (s : StreamE) (k : Bytes) (rest : Bytes) :
       simp only [List.length_cons, List.flatMap_cons, SGroupE.enc, hv, if_true, List.append_assoc, streamGroups,
         readString_enc g.name _ h1, readLengths64_two _ _ _ h2 h3, readLength64_saveLen _ _ h4, Option.map_some,
         readLength64_saveLen _ _ h6, group_pel_enc, readNacks_enc g.pel _ h7, readLength64_saveLen _ _ h5,
-        streamConsumers_enc s.ver k g.name.val g g.consumers _ h8, ih', claims_cmds, List.cons_append,
+        streamConsumers_enc x.hasCreateConsumer s.ver k g.name.val g g.consumers _ h8, ih', claims_cmds, List.cons_append,
         SGroupE.read]
     · simp only [hv, decide_false, StreamE.added, if_false] at ih' ⊢
       simp only [List.length_cons, List.flatMap_cons, SGroupE.enc, hv, if_false, List.nil_append, List.append_assoc,
         streamGroups, Bool.false_eq_true,
         readString_enc g.name _ h1, readLengths64_two _ _ _ h2 h3,
         readLength64_saveLen _ _ h6, group_pel_enc, readNacks_enc g.pel _ h7, readLength64_saveLen _ _ h5,
-        streamConsumers_enc s.ver k g.name.val g g.consumers _ h8, ih', claims_cmds, List.cons_append,
+        streamConsumers_enc x.hasCreateConsumer s.ver k g.name.val g g.consumers _ h8, ih', claims_cmds, List.cons_append,
         SGroupE.read, StreamE.added]
 
 /-! ## the whole value -/
